@@ -207,6 +207,30 @@ theorem C14_length_join (sw : Sw) (h : sw.joinArgAsList = true) (a b : Value) :
   · rw [lengthF_one, elems_mkList, joinParts_fst sw h, joinParts_fst sw h, List.length_append]
   · simp [lawLengthJoin, natOf_natV]
 
+/-- `join` never returns a list without a separator: with `auto` (or none given) it is the first
+    operand's, else the second's, else space — so a later `join`/`append`/`==` sees a decided one -/
+theorem C14_join_result_decided (sw : Sw) (a b r : Value) (h : joinF sw [a, b] = .ok r) :
+    ∃ s, innerSep r = some s ∧ s ≠ .undecided := by
+  rw [joinF_two] at h
+  cases h
+  refine ⟨_, rfl, ?_⟩
+  unfold joinAutoSep
+  split
+  · assumption
+  · split
+    · assumption
+    · decide
+
+/-- likewise `append` -/
+theorem C14_append_result_decided (sw : Sw) (l v r : Value) (h : appendF sw [l, v] = .ok r) :
+    ∃ s, innerSep r = some s ∧ s ≠ .undecided := by
+  rw [appendF_two] at h
+  cases h
+  refine ⟨_, rfl, ?_⟩
+  split
+  · decide
+  · assumption
+
 theorem C14_length_join_now (a b : Value) :
     ∃ r, joinF Sw.now [a, b] = .ok r ∧ elems r = elems a ++ elems b ∧
       lengthF [r] = .ok (natV ((elems a).length + (elems b).length)) :=
